@@ -34,33 +34,46 @@ impl Default for DeriveInputShapeSet {
 
 impl FromMeta for DeriveInputShapeSet {
     fn from_list(items: &[NestedMeta]) -> Result<Self> {
+        // Like `DataShape`, every faulty item of the list is reported, not only the first.
+        let mut errors = Error::accumulator();
         let mut new = DeriveInputShapeSet::default();
         for item in items {
             if let NestedMeta::Meta(Meta::Path(ref path)) = *item {
                 // A shape word is a single identifier: `struct_named::x` is not `struct_named`.
-                let ident = path.get_ident().ok_or_else(|| {
-                    Error::unknown_value(&crate::util::path_to_string(path)).with_span(path)
-                })?;
+                let ident = match path.get_ident() {
+                    Some(ident) => ident,
+                    None => {
+                        errors.push(
+                            Error::unknown_value(&crate::util::path_to_string(path))
+                                .with_span(path),
+                        );
+                        continue;
+                    }
+                };
                 let word = ident.to_string();
                 if word == "any" {
                     new.any = true;
                 } else if word.starts_with("enum_") {
-                    new.enum_values
-                        .set_word(&word)
-                        .map_err(|e| e.with_span(&ident))?;
+                    errors.handle(
+                        new.enum_values
+                            .set_word(&word)
+                            .map_err(|e| e.with_span(&ident)),
+                    );
                 } else if word.starts_with("struct_") {
-                    new.struct_values
-                        .set_word(&word)
-                        .map_err(|e| e.with_span(&ident))?;
+                    errors.handle(
+                        new.struct_values
+                            .set_word(&word)
+                            .map_err(|e| e.with_span(&ident)),
+                    );
                 } else {
-                    return Err(Error::unknown_value(&word).with_span(&ident));
+                    errors.push(Error::unknown_value(&word).with_span(&ident));
                 }
             } else {
-                return Err(Error::unsupported_format("non-word").with_span(item));
+                errors.push(Error::unsupported_format("non-word").with_span(item));
             }
         }
 
-        Ok(new)
+        errors.finish_with(new)
     }
 }
 
